@@ -7,6 +7,7 @@ CONSTANTS
   MaxSegs = 2
   EmptySegsUpTo = 3
   UseLen = 5
+  DeepLen = 4
   PairLen = 4
 INVARIANT TypeOK
 INVARIANT CigarLaw
